@@ -194,7 +194,7 @@ func init() {
 		Level:       "exploration",
 		Rule:        "bounded-exhaustive: every batch of 1..3 documents (3 documents: a 17-kind sub-menu in quick) where each document is an ordinary text document, a synonym document for thesaurus s1/s2 with one of 9 entry shapes (a->[x]; a->[x,y]; b->[y]; two entries in both enumeration orders; reversed synonym list; duplicate synonym; three terms a, c, b; a term without synonyms) or a document feeding BOTH thesauri (either field order), at least one synonym document; both build tags; in-memory and persisted+re-opened. Oracle: thesaurus keys ascending == defined terms, Contains agrees, and for every (thesaurus in {s1,s2,absent,ordinary field,_id}, term in {a,b,c,absent,empty}, EVERY exclusion bitmap) the (synonym, doc) pairs == reference, each once; plus every ordered pair of lookups over 3 thesaurus names x 4 terms where the second lookup is handed the first one's SynonymsList and SynonymsIterator as preallocation (after 0 / 1 / all Next calls), with and without exclusion on either lookup, and the variant in which only the iterator is handed on while the first list stays in use and is read again afterwards; synonym fields have empty ordinary dictionaries and ordinary fields are unaffected (full postings/stored dump). Non-trivial = >= 2 synonym documents.",
 		Assumptions: batchAssumptions,
-		Bounds:      map[string]string{"quick": "N<=3 (15 document kinds), all exclusion bitmaps", "thorough": "N<=3 plus N=4 over a 5-kind menu"},
+		Bounds:      map[string]string{"quick": "N<=2 over all 25 document kinds, N=3 over a 20-kind sub-menu, all exclusion bitmaps", "thorough": "N<=3 over all 25 kinds plus N=4 over a 9-kind menu"},
 		Flavours:    plainAndVec,
 		New:         func() interface{} { return &enum.SynCase{} },
 		Gen: func(tier string, emit func(interface{})) {
